@@ -252,7 +252,7 @@ def run_job(job, method, n, order, xk, stepmode, cplx):
                     dev = term - oterm
                     job.prove('%s-row%d-col%d%s' % (stage, i, c, lab), z3.And(dev <= sn.ratval(t), -dev <= sn.ratval(t)), box,
                               dict(key='C01:%s:n%d:o%d:%s:%s-row-inexact' % (method, n, order, stepmode, stage), kind='row',
-                                   stage=stage, row=i, col=c, names=names, tau=float(t)))
+                                   stage=stage, row=i, col=c, names=names, tau=float(t), stronger_than_property=True))
     if tight == 0:
         job.notes.append('%s: all rows numerically singular (excluded)' % job.name)
     # f_value bookkeeping: the value handed back as f(x) is f(x)
